@@ -15,7 +15,7 @@ THEOREMS = ["index_exact", "index_const_exact", "subslice_exact", "substring_exa
             "checks_exact_counterexample", "recover_depth_arith", "recover_depth", "recover_depth_forwarding_counterexample",
             "emu_replaced", "ref_replaced", "emu_builtin", "ref_builtin", "emu_forward", "ref_forward", "emu_goexit", "ref_goexit",
             "defer_refines_counterexample_replaced", "defer_refines_counterexample_builtin", "defer_refines_counterexample_forward",
-            "defer_refines_counterexample_goexit"]
+            "defer_refines_counterexample_goexit", "leaf_sim", "defer_refines_partial"]
 
 # ------------------------------------------------------------------------------------------------------------
 # mini-language scripts (GV.Model.Defer)
